@@ -1223,6 +1223,8 @@ class FrameInterp(Interp):
             return Partial(args[0], args[1:], kwargs)
         if name == "jax.lax.cond" and len(args) >= 3 and isinstance(args[0], Cond):
             ops = list(args[3:])
+            if not ops and "operand" in kwargs:
+                ops = [kwargs["operand"]]
             x = self.call(args[1], ops, {})
             y = self.call(args[2], ops, {})
             return self.select(args[0], x, y)
@@ -1286,6 +1288,9 @@ class FrameInterp(Interp):
             return self.binop(ast.MatMult(), args[0], args[1])
         if fn in ("vdot", "inner") and all(isinstance(a, Vec) for a in args[:2]):
             return self.vec_dot(args[0], args[1])
+        if fn == "vdot" and len(args) == 2 and all(isinstance(a, Tens) for a in args[:2]):
+            # np.vdot flattens both operands: the double contraction A : B
+            return self.t_tensordot(args[0], args[1])
         if fn == "linalg.det":
             return self.t_det(self.as_tens(x, "det"))
         if fn == "linalg.inv":
